@@ -466,8 +466,9 @@ func (m *Mint) MintTokens(mintTokensRequest nut04.PostMintBolt11Request) (cashu.
 		// note: mintQuote.State may have been changed to Issued above so the
 		// previous state is Paid (this is the nut04.Paid case)
 		if err != nil {
-			if err := m.db.UpdateMintQuoteState(mintQuote.Id, nut04.Paid); err != nil {
-				return nil, err
+			if dbErr := m.db.UpdateMintQuoteState(mintQuote.Id, nut04.Paid); dbErr != nil {
+				errmsg := fmt.Sprintf("error restoring mint quote state: %v", dbErr)
+				return nil, cashu.BuildCashuError(errmsg, cashu.DBErrCode)
 			}
 			return nil, err
 		}
